@@ -1,5 +1,5 @@
 """C06 — GSUB lookups are applied as the OpenType substitution model prescribes."""
-import vlib, bufgen
+import vlib, bufgen, gsubgen, fontbuild
 
 MODULE = "RbModel.Props.C06"
 LEVEL = "proof"
@@ -61,6 +61,64 @@ def zipper_search(ctx, shim, r, n):
                          "distinct = distinct request lines")
 
 
+def gsub_groups(ctx, shim, r, nfonts, per_font, types=(1, 2, 3, 4, 5, 6, 8)):
+    """fonts from random recipes; the plan's lookup list is taken from the crate (planinfo) and handed to the
+    model together with the flattened recipe; both then run GSUB on the same injected buffers."""
+    fonts, g1 = [], []
+    for i in range(nfonts):
+        rec = gsubgen.rand_recipe(r, types=types)
+        feats = gsubgen.user_features(r, rec)
+        try:
+            hexf = fontbuild.hexfont(rec)
+        except fontbuild.FontBuildError:
+            continue
+        fid = f"G{i}"
+        fonts.append((fid, rec, feats, hexf))
+        g1.append([f"font {fid} {hexf}", f"planinfo {fid} l DFLT - {feats}"])
+    o1 = vlib.run_groups(shim, g1)
+    groups = []
+    for (fid, rec, feats, hexf), o in zip(fonts, o1):
+        if o[0] != "ok" or not o[1].startswith("ok"):
+            ctx.violation("generated GSUB font rejected or plan failed", {"stage": "search", "stream": "gsub-interp",
+                          "recipe": rec, "observed": o})
+            continue
+        maps = o[1].split()[1]
+        if maps == "-":
+            mt = "0"
+        else:
+            ms = [m.split(":") for m in maps.split(",")]
+            mt = str(len(ms)) + " " + " ".join(" ".join(m[1:]) for m in ms)
+        ft = gsubgen.flatten(rec)
+        lines = [f"font {fid} {hexf}"]
+        for _ in range(per_font):
+            st = gsubgen.rand_buffer(r, rec)
+            lines.append(f"gsub {fid} l DFLT - {feats} 1 FONT {ft} MAPS {mt} BUF {bufgen.state_str(st)}")
+        groups.append(lines)
+    return groups
+
+
+def gsub_classify(ln, out):
+    ks = []
+    t = ln.split(" FONT ")[1].split(" MAPS ")[0]
+    if out.startswith("panic"): ks.append("panic")
+    src = ln.split(" I=")[-1].split(" U=")[0]
+    dst = out.split(" I=")[-1].split(" U=")[0] if " I=" in out else ""
+    gids = lambda s: [e.split(":")[0] for e in s.split(",")] if s and s != "-" else []
+    n = int(ln.split(" n=")[1].split()[0])
+    n2 = int(out.split(" n=")[1].split()[0]) if " n=" in out else n
+    ks.append("glyphs-substituted" if gids(src)[:n] != gids(dst)[:n2] else "glyphs-unchanged")
+    if n2 > n: ks.append("length-grew")
+    if n2 < n: ks.append("length-shrank")
+    if " ok=0 " in out: ks.append("unsuccessful")
+    try:
+        o0 = int(ln.split(" O=")[1].split()[0]); o1 = int(out.split(" O=")[1].split()[0])
+        if o1 < o0: ks.append("nested-lookups-ran")
+        if o0 - o1 >= 64: ks.append("nesting-limit-reached")
+    except Exception:
+        pass
+    return ks
+
+
 def run(ctx):
     ctx.assumptions += [
         "part 1 only (buffer ⊑ list zipper): the lookup interpreter model (Gsub) is added later; until then the GSUB "
@@ -71,6 +129,9 @@ def run(ctx):
     shim = vlib.build_harness()
     ctx.correspond("buf-walks", lines=walks(ctx.rng("walks"), ctx.budget(20000, 300000)), classify=classify, canon=canon)
     zipper_search(ctx, shim, ctx.rng("zipper"), ctx.budget(20000, 300000))
+    groups = gsub_groups(ctx, shim, ctx.rng("gsub"), ctx.budget(300, 6000), 8)
+    ctx.correspond("gsub-interp", groups=groups, classify=gsub_classify, canon=canon,
+                   only=lambda ln: ln.startswith("gsub "))
 
 
 def replay(ctx, rp):
